@@ -4,6 +4,7 @@
    depend on which factorisation algorithm produced L. *)
 From mathcomp Require Import all_ssreflect all_algebra.
 From TinyGP Require Import Base.Ops Base.LMat Model.GP Theory.MxRefine Theory.QSMDen Theory.QSMMulAbs Theory.Gauss Theory.KalmanAbs Theory.KalmanThy.
+From TinyGP Require Import Model.QSMCore Model.SSKernel Theory.QSMMatmul Theory.SSK.
 Set Implicit Arguments. Unset Strict Implicit. Unset Printing Implicit Defensive.
 Import Order.TTheory GRing.Theory Num.Theory.
 Local Open Scope ring_scope.
@@ -64,3 +65,29 @@ Theorem C03_kalman_cov_is_quasisep_cov (F : fieldType) n m (Pinf : 'M[F]_m) (a :
   = Dm n (qsd Pinf h0 nz) + denSL n (qsp Pinf a h0) (qsq h0) a + (denSL n (qsp Pinf a h0) (qsq h0) a)^T.
 Proof. exact: kalman_cov_lti. Qed.
 Print Assumptions C03_kalman_cov_is_quasisep_cov.
+
+(* the same at the level of the kernel record: with the tables that KalmanSolver.__init__ derives from the kernel
+   (A_k = transition(x_(k-1), x_k), H_k = observation_model(x_k), Pinf), for a time-invariant kernel (constant observation
+   model, commuting transition matrices, symmetric Pinf) the covariance of the Kalman model is the matrix of
+   Quasisep.to_symm_qsm(X) plus the diagonal noise: the matrix whose Cholesky factor the quasiseparable solver uses *)
+Theorem C03_kalman_S_is_quasisep (F : fieldType) sq lt X (k : sskernel F X) (x0 : X) (xs : seq X) (dg : vec F) (h0 : 'rV[F]_(ssm k)) :
+  (Pm k)^T = Pm k -> (forall x, Hx k x = h0) ->
+  (forall x y x' y', Ax k x y *m Ax k x' y' = Ax k x' y' *m Ax k x y) ->
+  kalman_S (size xs) (ssm k) (ssP k) (kal_A k x0 xs) (kal_H k x0 xs) dg
+  = den (size xs) (to_symm_qsm (fops sq lt) k x0 xs) + Dm (size xs) (fun i => nth 0 dg i).
+Proof. move=> ps hc ac; exact: (kalman_S_is_quasisep sq lt). Qed.
+Print Assumptions C03_kalman_S_is_quasisep.
+
+(* end to end for the built-in kernels (W1/W2 join): for the state-space tables REGENERATED from kernels/quasisep.py the
+   hypotheses above hold (laws, constant observation model, commuting transitions: W2/QSLaws.v, W2/QSStationary.v), so the
+   covariance the Kalman recursion factorises is exactly the matrix the quasiseparable solver factorises, on any inputs *)
+From Coq Require Import Reals.
+From TinyGP Require Import Base.RStruct Theory.RJoin Theory.SSKBuiltin.
+Theorem C03_builtin_kernels_kalman (scale sigma a b c d : R) (x0 : R) (xs dg : seq R) :
+  let S k := kalman_S (size xs) (ssm k) (ssP k) (kal_A k x0 xs) (kal_H k x0 xs) (dg : seq Rf) in
+  let Q k := den (size xs) (to_symm_qsm rfops k x0 xs) + Dm (size xs) (fun i => nth (0 : Rf) dg i) in
+  [/\ S (k_Exp scale sigma) = Q (k_Exp scale sigma), S (k_Matern32 scale sigma) = Q (k_Matern32 scale sigma),
+      S (k_Matern52 scale sigma) = Q (k_Matern52 scale sigma), S (k_Cosine scale sigma) = Q (k_Cosine scale sigma) &
+      S (k_Celerite a b c d) = Q (k_Celerite a b c d)].
+Proof. exact: builtin_kernels_kalman. Qed.
+Print Assumptions C03_builtin_kernels_kalman.
